@@ -99,5 +99,5 @@ Definition chk (c : case) : bool :=
   let '(f, a, o) := c in
   if f =? 701 then chk_701 a o
   else if f =? 722 then chk_722 a o
-  else if (f =? 702) || (f =? 703) || (f =? 723) || (f =? 731) || (f =? 753) || (f =? 772) || (f =? 752) || (f =? 761) || (f =? 771) then true  (* judged by the implementation-side oracle *)
+  else if (f =? 702) || (f =? 703) || (f =? 732) || (f =? 742) || (f =? 723) || (f =? 731) || (f =? 753) || (f =? 772) || (f =? 752) || (f =? 761) || (f =? 771) then true  (* judged by the implementation-side oracle *)
   else lists_eqb (model f a) o.
